@@ -17,6 +17,8 @@ SPECS = [
     ('any',),
     ('exp', (128, 0, 0), ('int',)),
     ('imp', (128, 0, 1), ('seqof', ('bool',))),
+    ('exp', (128, 0, 0), ('choice', [('int',), ('octs',), ('seqof', ('null',))])),
+    ('seq', [('req', ('exp', (128, 0, 0), ('choice', [('int',), ('octs',)]))), ('req', ('null',))]),
 ]
 
 
@@ -78,7 +80,7 @@ def classify(oc, data, cdc):
 
 def run(ctx):
     ctx.rule = ('all byte strings of length <= 2 (quick) / <= 3 (thorough) over 18 structural octets, and mutants (bit flip, insert, delete, '
-                'tag/length rewrite, truncation, duplication) of valid encodings; primitive contents over 14 significant octets and a sweep of all 256 first contents octets of BIT STRING/OID/REAL; REAL character forms over 31 texts (incl. nan, inf, underscores, blanks); BER, CER and DER decoders, one-shot and streaming; 15 guiding '
+                'tag/length rewrite, truncation, duplication) of valid encodings; primitive contents over 14 significant octets and a sweep of all 256 first contents octets of BIT STRING/OID/REAL; REAL character forms over 31 texts (incl. nan, inf, underscores, blanks); BER, CER and DER decoders, one-shot and streaming; 17 guiding '
                 'types and none; outcome must be a value object + remainder or a PyAsn1Error; reads bounded by 8*len+16; non-trivial = length >= 2')
     search_only = getattr(ctx, 'search_only', False)
     specs = [(sd, U.build_type(sd) if sd is not None else None, U.coq_ty(sd) if sd is not None else None) for sd in SPECS]
@@ -96,7 +98,7 @@ def run(ctx):
             inputs.append(('mut', m, c))
     # minimised past failures run first (each must now end in a library error)
     for h in ('23020300', '0488ffffffffffffffff', '030103', '2305030103', '30800201050201060000', 'a0800000', '3000', '30023000',
-              '24800401610000', '0902030a', '06018' + '0', '0602ff7f', '7f', '1f8000', '0484ffffffff', '238003000000'):
+              '24800401610000', '0902030a', 'a0800000', '3006a08000000500', '3080a080000005000000', '2300', '23802300030201fe0000', '06018' + '0', '0602ff7f', '7f', '1f8000', '0484ffffffff', '238003000000'):
         inputs.insert(0, ('exh', bytes.fromhex(h)))
     # structured: every universal primitive tag with contents over a small alphabet of octets that matter
     # to some contents decoder (REAL first octets, exponent forms, BIT STRING pad counts, 0x80 in OIDs ...)
